@@ -149,7 +149,8 @@ for w in (b'true', b'false', b'yes', b'no', b'on', b'off'):
     for mask in range(1 << len(w)):
         BOOL_TOKS.append(bytes(c - 32 if (mask >> i) & 1 else c for i, c in enumerate(w)))
 BOOL_TOKS += [b'y', b'n', b'1', b'0', b'tru', b'truee', b'ye', b'o', b'of', b'offf', b'', b't', b'f', b'nO ', b' no', b'TRUE1',
-              b'enable', b'oN', b'\xd0\xbe\xd0\xbd']
+              b'enable', b'oN', b'\xd0\xbe\xd0\xbd', b'nope', b'none', b'no!', b'offline', b'FALSEHOOD', b'once', b'only', b'on/off', b'yesterday',
+              b'yes ', b'true=', b'onn', b'not', b'falsey', b'Yes.', b'no\t', b'o n', b'tr ue']
 
 
 def generate(rng, tier):
@@ -188,8 +189,8 @@ def oracle(scn, il):
         ok = ('rc=0 ' in res)
         name = {'int': b'i', 'flt': b'f', 'bool': b'b'}[kind]
         size, vals = value_of(dump, name)
-        if not all(c in ALPHABET for c in t):
-            continue            # outside the property's quantifier: correspondence only
+        if kind != 'bool' and not all(c in ALPHABET for c in t):
+            continue            # numerals: outside the property's quantifier, correspondence only
         if kind == 'int':
             z = int_numeral(t)
             should = z is not None and LONG_MIN <= z <= LONG_MAX
